@@ -31,7 +31,8 @@ def parseLevels (ws : List String) : Option (List (Nat × List Client)) :=
   | _ => none
 
 def showOut (o : Out) : String :=
-  s!"{o.allotted}:" ++ (match o.setTop with | none => "-" | some b => showBool b)
+  -- the harness presets `my_is_top_priority` to false, so an untouched flag reads 0
+  s!"{o.allotted}:" ++ showBool (o.setTop.getD false)
 
 def showAllot (r : Loop × List (List Out)) : String :=
   " | ".intercalate (r.2.map (fun os => " ".intercalate (os.map showOut))) ++ s!" # {r.1.assigned}"
@@ -71,14 +72,14 @@ def drive (ws : List String) : String :=
 
 /-! ### `c16m`: market + serializer world -/
 
-def showArena (a : Arena) : String :=
-  s!"{a.id}:{a.minW}:{a.maxW}:{a.allotted}:{showBool a.top}"
+def showArena (a : Arena) (g : Grant) : String :=
+  s!"{a.id}:{a.minW}:{a.maxW}:{g.1}:{showBool g.2}"
 
 def showWorld (w : World) : String :=
   let m := w.market
   let s := w.proxy.ser
-  s!"soft={m.softLimit} total={m.totalDemand} mand={m.mandatoryNum} D={showInts m.levelDemand} C=" ++
-    " | ".intercalate (m.clients.map (fun cs => " ".intercalate (cs.map showArena))) ++
+  s!"soft={m.softLimit} total={m.totalDemand} mand={m.mandatoryNum} D={showInts (m.lv.map (·.1))} C=" ++
+    " | ".intercalate (List.zipWith (fun p gs => " ".intercalate (List.zipWith showArena p.2 gs)) m.lv m.grants) ++
     s!" ser={s.softLimit},{s.totalRequest},{s.pending},{s.handed} prox={w.proxy.numMandatory},{showBool w.proxy.enabled}"
 
 def driveWorld (w : World) (ws : List String) : World × String :=
